@@ -61,6 +61,29 @@ def k_all(ck):
         if pre:
             carriers.append(l)
     ck.floor("K1", len(carriers), 2, "loop-carried locals of Client::exec that can hold a SearchArtifact (previous_artifact, current_search)")
+    # K1b: loop-carried locals that a search's collection writes into through `&mut` (an answer / line / statistics remembered from the
+    # last search is search memory as well): the same must-be-empty obligation applies to them
+    deps0 = Deps(ex)
+    SEARCH_TY = "weechess_engine::uci::Search"
+    derived = []
+    for bb, t in live_calls(ex):
+        cn = callee_name(t)
+        cb = prog.bodies.get(cn)
+        if cb is None or not any(cb.local_ty(i) == SEARCH_TY for i in range(1, cb.arg_count + 1)):
+            continue
+        for a in t["args"]:
+            for l in operand_locals(a):
+                if ex.local_ty(l).startswith("&mut "):
+                    for tgt in deps0.points_to.get(l, ()):
+                        if tgt in carriers or tgt in derived or ex.local_ty(tgt).startswith("&"):
+                            continue
+                        pre = any(s_["k"] == "assign" and s_["place"] == {"l": tgt, "p": []}
+                                  for b2, blk2 in enumerate(ex.blocks) if b2 not in loop_blocks and not blk2.get("cleanup") and b2 not in cfg.reachable(ex, [shape.loop_head])
+                                  for s_ in blk2["stmts"])
+                        if pre:
+                            derived.append(tgt)
+    carriers = carriers + derived
+    ck.extra["search_derived_locals"] = [ex.local_name(l) or "_%d" % l for l in derived]
     names = {l: ex.local_name(l) or "_%d" % l for l in carriers}
     ck.sample({"rule": "K1", "carriers": [{"local": names[l], "type": ex.local_ty(l)} for l in carriers],
                "arm_entry": "bb%d" % entry, "arm_blocks": len(region), "loop_head": "bb%d" % shape.loop_head})
@@ -135,8 +158,8 @@ def k_all(ck):
     for l in carriers:
         holders = sorted(b for b, st in out_at_backedge.items() if l in st)
         ck.req(not holders, "K3", names[l], ex.where(ex.term(holders[0])["line"] if holders else None),
-               "on some path through the `ucinewgame` arm (leaving via bb%s) `%s` may still hold a SearchArtifact when the next command is read: "
-               "the next `go` would reuse the previous game's tables and repetition history" % (holders[:3], names[l]),
+               "on some path through the `ucinewgame` arm (leaving via bb%s) `%s` may still hold %s when the next command is read: "
+               "the next `go` would reuse what the previous game's search left behind" % (holders[:3], names[l], "a SearchArtifact" if l not in derived else "data written by collecting a search"),
                "empty on all %d path end(s)" % len(out_at_backedge))
     # the arm must not leave the function or skip the loop (e.g. by break)
     leaves = [b for b in region if ex.term(b)["k"] == "return"]
